@@ -1305,6 +1305,91 @@ def gen_c19(repo):
             'fromJson keys, _all_complex_types)'), out
 
 
+# ---- C13: the schema of a join on column names (merge_schemas, get_on_fields) -----------------------------
+
+def gen_c13(repo):
+    tree = parse(repo, 'pysparkling/sql/schema_utils.py')
+    consts = parse(repo, 'pysparkling/sql/internal_utils/joins.py')
+    hows = {}
+    for st in consts.body:
+        if isinstance(st, ast.Assign) and isinstance(st.targets[0], ast.Name) and st.targets[0].id.endswith('_JOIN') \
+                and isinstance(st.value, ast.Constant) and isinstance(st.value.value, str):
+            hows[st.targets[0].id] = st.value.value
+    want = ['INNER_JOIN', 'CROSS_JOIN', 'FULL_JOIN', 'LEFT_JOIN', 'RIGHT_JOIN', 'LEFT_SEMI_JOIN', 'LEFT_ANTI_JOIN']
+    if sorted(hows) != sorted(want) or len(set(hows.values())) != len(want):
+        raise NotTranslatable('join type constants: %r' % hows)
+    gof = find_def(tree, 'get_on_fields')
+    body = [ast.unparse(x) for x in gof.body]
+    if body != ['left_on_fields = [next((field for field in left_schema if field.name == c)) for c in on]',
+                'right_on_fields = [next((field for field in right_schema if field.name == c)) for c in on]',
+                'return (left_on_fields, right_on_fields)']:
+        raise NotTranslatable('get_on_fields: %r' % body)
+    ms = find_def(tree, 'merge_schemas')
+    if [a.arg for a in ms.args.args] != ['left_schema', 'right_schema', 'how', 'on']:
+        raise NotTranslatable('merge_schemas parameters')
+
+    class T(TrM):
+        def expr(self, e, env):
+            src = ast.unparse(e)
+            if isinstance(e, ast.List) and not e.elts:
+                return '[]'
+            m = re.match(r'\[field for field in (left|right)_schema\.fields if field not in (\w+)\]$', src)
+            if m and m.group(2) in env:
+                return '(%s_schema.filter fun field => !(%s).contains field)' % (m.group(1), env[m.group(2)])
+            if src == '[StructField(field.name, field.dataType, nullable=True) for field in left_on_fields]' and 'left_on_fields' in env:
+                return '(%s.map fun field => { field with nullable := true })' % env['left_on_fields']
+            if isinstance(e, ast.BinOp) and isinstance(e.op, ast.Add):
+                return '(%s ++ %s)' % (self.expr(e.left, env), self.expr(e.right, env))
+            return super().expr(e, env)
+
+        def cond(self, e, env):
+            if isinstance(e, ast.Compare) and len(e.ops) == 1 and ast.unparse(e.left) == 'how':
+                if isinstance(e.ops[0], ast.In) and isinstance(e.comparators[0], ast.Tuple) and all(isinstance(x, ast.Name) and x.id in hows for x in e.comparators[0].elts):
+                    return '(' + ' ∨ '.join('how = How.%s' % x.id for x in e.comparators[0].elts) + ')'
+                if isinstance(e.ops[0], ast.Eq) and isinstance(e.comparators[0], ast.Name) and e.comparators[0].id in hows:
+                    return '(how = How.%s)' % e.comparators[0].id
+            if isinstance(e, ast.Compare) and ast.unparse(e) == 'on is None':
+                return '(on = none)'
+            return super().cond(e, env)
+
+        def block(self, stmts, env, k, ind):
+            if stmts:
+                st = stmts[0]
+                src = ast.unparse(st)
+                pad = ' ' * ind
+                if src == 'if on is None:\n    on = []':
+                    env2 = dict(env)
+                    env2['on'] = '(on.getD [])'
+                    return self.block(stmts[1:], env2, k, ind)
+                if src == 'left_on_fields, right_on_fields = get_on_fields(left_schema, right_schema, on)':
+                    env2 = dict(env)
+                    env2['left_on_fields'], env2['right_on_fields'] = 'left_on_fields', 'right_on_fields'
+                    return ('match getOnFields left_schema right_schema %s with\n%s| none => none   -- StopIteration: a join column is missing\n'
+                            '%s| some (left_on_fields, right_on_fields) =>\n%s  ' % (env['on'], pad, pad, pad)) + self.block(stmts[1:], env2, k, ind + 2)
+            return super().block(stmts, env, k, ind)
+    t = T({}, kinds={})
+    env = {'@self': {}, '@kind': {}, 'on': 'on', 'left_schema': 'left_schema', 'right_schema': 'right_schema'}
+
+    def k(kind, e2, value):
+        if kind == RETURN and value is not None and ast.unparse(value).startswith('StructType(fields=') and len(value.keywords) == 1:
+            return 'some %s' % t.expr(value.keywords[0].value, e2)
+        if kind == RAISE:
+            return 'none   -- IllegalArgumentException'
+        raise NotTranslatable('%s in merge_schemas' % kind)
+    body = t.block(ms.body, env, k, 2)
+    out = ('/-- the join type constants of sql/internal_utils/joins.py -/\ninductive How where\n  %s\n  deriving DecidableEq, Repr\n\n' %
+           ' '.join('| ' + h for h in want))
+    out += '/-- the string each constant stands for -/\ndef How.text : How → String\n%s\n\n' % '\n'.join('  | .%s => "%s"' % (h, hows[h]) for h in want)
+    out += ('structure Field where\n  name : String\n  dataType : Nat      -- the type, opaque here\n  nullable : Bool\n  deriving DecidableEq, Repr\n\n'
+            '/-- `get_on_fields`: per join column the FIRST field of that name on each side (`none` = StopIteration) -/\n'
+            'def getOnFields (left_schema right_schema : List Field) (on : List String) : Option (List Field × List Field) :=\n'
+            '  match on.mapM (fun c => left_schema.find? (fun field => field.name == c)), on.mapM (fun c => right_schema.find? (fun field => field.name == c)) with\n'
+            '  | some l, some r => some (l, r)\n  | _, _ => none\n\n'
+            '/-- `merge_schemas(left_schema, right_schema, how, on)`: the fields of the joined frame -/\n'
+            'def mergeSchemas (left_schema right_schema : List Field) (how : How) (on : Option (List String)) : Option (List Field) :=\n  %s\n' % body)
+    return 'pysparkling/sql/schema_utils.py (merge_schemas, get_on_fields), pysparkling/sql/internal_utils/joins.py (join type constants)', out
+
+
 # ---- C05: CacheManager, TimedCacheManager, PersistedRDD.compute ------------------------------------
 
 ENTRY_FIELDS = ('mem_obj', 'disk_location')
@@ -1413,4 +1498,4 @@ def gen_c05(repo):
     return 'pysparkling/cache_manager.py (CacheManager.add/get/has/delete, TimedCacheManager.add/gc), pysparkling/rdd.py (PersistedRDD.compute)', out
 
 
-GENERATORS_M = {'C11': gen_c11, 'C04': gen_c04, 'C05': gen_c05, 'C10': gen_c10, 'C09': gen_c09, 'C20': gen_c20, 'C03': gen_c03, 'C08': gen_c08, 'C12': gen_c12, 'C01': gen_c01, 'C19': gen_c19}
+GENERATORS_M = {'C11': gen_c11, 'C04': gen_c04, 'C05': gen_c05, 'C10': gen_c10, 'C09': gen_c09, 'C20': gen_c20, 'C03': gen_c03, 'C08': gen_c08, 'C12': gen_c12, 'C01': gen_c01, 'C19': gen_c19, 'C13': gen_c13}
